@@ -17,9 +17,15 @@ META = {
             "indices -1..len+1 and 2^63, 2^64) executed as Scheme text in a real Vm in release AND debug profile, "
             "reading back every pool object after every operation as a graph with sharing labels; the same "
             "sequences are compared against an independent reference store with R7RS meanings (property oracle). "
-            "map, for-each and equal? are covered by model and oracle correspondence (no specification theorem yet); "
-            "equal? after its repair (dfd9e81, terminates on circular structure) is proved to give the outcome the "
-            "pinned function gave wherever that one returns, i.e. on every acyclic structure.",
+            "map and for-each are covered by model and oracle correspondence (no specification theorem yet). equal?: "
+            "for every store and every two values that have an abstract tree view (View s v t, an inductive relation "
+            "without fuel unfolding pairs, vectors, strings by content and the scalars booleans / characters / () / exact "
+            "integers / symbols by name into an address-free tree; defined exactly on acyclic data, sharing allowed) "
+            "equal? returns #t iff the two views are the same tree (equal_iff_same_view), i.e. R7RS equal? on trees "
+            "(Tree.equiv: same shape, strings by content, leaves eqv?, the leaf relation proved to be the model's "
+            "eqvCells on scalar cells and equality of the scalar); member / assoc return the first element / entry "
+            "whose view is the key's view (member_view, assoc_view); equal? after its repair (dfd9e81, terminates on "
+            "circular structure) is proved to give the outcome the pinned function gave wherever that one returns.",
     "note": "Trusted: Lean kernel; axioms propext, Classical.choice, Quot.sound; the hand-written model Marwood.Store is "
             "tied to the Rust code by differential testing only; prelude.scm definitions are transcribed by hand; the "
             "library procedures of prelude.scm are REGENERATED on every run as data (translate/prelude_procs.py -> "
@@ -52,6 +58,24 @@ META = {
             "monotonicity of the pinned loops, least fuel of an in-progress pair of locations; core Lean only); "
             "equalB_agrees_pinned is the builtin's form; member / assoc call the repaired equal (prelude_image_member / "
             "_assoc unchanged); circular inputs for equal? are exercised by C06 (equal_total there); "
+            "equal? AGAINST THE SPECIFICATION (closed theorems, no hypothesis on the store beyond the two views): "
+            "Spec/StoreTree.lean defines Atom (bool char nil num sym), Tree (leaf | str chars | pair | vec), the mutual "
+            "inductive View / ViewAll (no fuel; a derivation is finite, so only acyclic data has a view; view_unique: it is "
+            "a function of the value), Tree.equiv (R7RS equal? on trees; tree_equiv_iff: it is equality of trees; "
+            "leaf_eqv_is_eqvCells: on two scalar cells the model's eqvCells computes the leaf relation Atom.eqv; "
+            "leaf_eqv_iff: that is equality of the scalar for symbols, booleans, (), characters, exact integers; strings "
+            "compare by content) and Tree.size. equal_same_view_equiv / equal_iff_same_view: View s l tl, View s r tr, "
+            "2*size tl <= fuel => equal fuel s l r = ok (Tree.equiv tl tr) = ok (decide (tl = tr)) — proved for "
+            "Pinned.equal / comparePair / compareVector by induction on the fuel (Lemmas/EqualViewMain.pinned_view; "
+            "pinned_equal_iff_same_view) and transferred with equal_agrees; equal_iff_same_view_total: the same for every "
+            "fuel >= equalFuel s on a Shaped store and two values (equal_total + fuel monotonicity of the repaired loops, "
+            "seen_step) — needed because a DAG unfolds into a tree exponentially larger than the store while the fuel is a "
+            "nesting depth; equalB_iff_same_view is the builtin's form. member_view / assoc_view instantiate mem_spec / "
+            "ass_spec at the test equal?: first sublist / first entry (the entry itself) whose car / key has the view of "
+            "the searched object, #f when none on a proper list, entries that are not pairs skipped (EntryKey). Scalars "
+            "outside the property's quantifier (void, undefined, builtin procedure values, inexact numbers) have no view. "
+            "Non-vacuity: exTreeStore holds (1 #(2 \"ab\") x) built two ways (boxed vs immediate vector slot, two string "
+            "objects) and (1 #(2) x): ex_view1/2/3, equal? = #t / #f by the theorem. "
             "readings of R7RS 'it is an error' cases are listed at the top of lean/Marwood/Spec/Store.lean "
             "(lazy traversal for memq..assoc/list-tail/list-ref/map, non-pair alist entries skipped, list-tail needs "
             "a pair or () as first argument); optional range arguments of vector->list / vector-fill! are not "
@@ -76,7 +100,10 @@ prelude_source_map1 prelude_source_map prelude_source_forEach prelude_sources_ag
 prelude_mem_family
 prelude_image_length prelude_image_memq prelude_image_memv prelude_image_member prelude_image_assq
 prelude_image_assv prelude_image_assoc prelude_image_anyNull prelude_image_map1 prelude_image_map
-prelude_image_forEach prelude_image_caar prelude_image_list equal_agrees_pinned equalB_agrees_pinned""".split()]
+prelude_image_forEach prelude_image_caar prelude_image_list equal_agrees_pinned equalB_agrees_pinned
+view_unique leaf_eqv_is_eqvCells leaf_eqv_iff tree_equiv_iff equal_same_view_equiv equal_iff_same_view
+equal_iff_same_view_total equalB_iff_same_view pinned_equal_iff_same_view member_view assoc_view
+ex_view1 ex_view2 ex_view3 exTree_size""".split()]
 
 # sha256[:16] of the whitespace-normalised text of the prelude definitions transcribed in
 # lean/Marwood/Store/Prelude.lean (and ListOps.list for `list`)
